@@ -61,28 +61,9 @@ Definition same_pair (p : option (string * string)) (a b : string) : bool :=
 (** the two directory references of a rename handler: first and second fid lookup *)
 Definition lookup_vars (h : string) : list (string * string) := map (split_arrow EmptyString) (with_prefix "lookup:" (events h)).
 
-Lemma rename_guard_generated :
-  lookup_vars "trenameat.handle" = [("_v0.OldDirectory", "_v3"); ("_v0.NewDirectory", "_v5")] /\
-  rename_guard "trenameat.handle" "_v3" "_v5" = Some true /\
-  lookup_vars "trename.handle" = [("_v0.fid", "_v3"); ("_v0.Directory", "_v5")] /\
-  rename_guard "trename.handle" "_v3.parent" "_v5" = Some true /\
-  (* the names compared: Trenameat the two names of the message; Trename the entry's current name (nameFor, read
-     under the rename lock) and the name of the message *)
-  same_pair (guard_names "trenameat.handle") "_v0.OldName" "_v0.NewName" = true /\
-  In "tree:_v3.parent.pathNode.nameFor(_v3)" (events "trename.handle") /\
-  same_pair (guard_names "trename.handle") "_v6" "_v0.Name" = true.
-Proof.
-  split; [vm_compute; reflexivity|]. split; [vm_compute; reflexivity|]. split; [vm_compute; reflexivity|].
-  split; [vm_compute; reflexivity|]. split; [vm_compute; reflexivity|]. split; [vm_compute; tauto|].
-  vm_compute; reflexivity.
-Qed.
-
 (** the model instantiated with what the source does *)
 Definition bynode_of_source : bool :=
   match rename_guard "trenameat.handle" "_v3" "_v5", rename_guard "trename.handle" "_v3.parent" "_v5" with
   | Some true, Some true => true
   | _, _ => false
   end.
-
-Lemma bynode_of_source_true : bynode_of_source = true.
-Proof. vm_compute. reflexivity. Qed.
